@@ -10,6 +10,34 @@ pub fn self_test_codec() -> Result<(), String> {
     crate::refcodec::self_test()?;
     crate::refcobs::self_test()?;
     crate::refcrc::self_test()?;
+    self_test_adapters()?;
+    Ok(())
+}
+
+/// The harness's serde adapters are kept honest by an independent path: what `Typed(shape, value)`
+/// hands to a recording serializer must convert back to exactly `value` under `shape`, and the
+/// reference decoder must invert the reference encoder. (A failure is a harness defect: exit 2.)
+pub fn self_test_adapters() -> Result<(), String> {
+    use crate::gen::{arb_typed, ShapeCfg, ValCfg};
+    use proptest::strategy::{Strategy, ValueTree};
+    use proptest::test_runner::{Config, RngAlgorithm, TestRng, TestRunner};
+    let rng = TestRng::from_seed(RngAlgorithm::ChaCha, &[7u8; 32]);
+    let mut runner = TestRunner::new_with_rng(Config::default(), rng);
+    let strat = arb_typed(ShapeCfg::default(), ValCfg { max_len: 40, max_seq: 3 });
+    for _ in 0..400 {
+        let (shape, value) = strat.new_tree(&mut runner).map_err(|e| e.to_string())?.current();
+        let call = crate::record::record(&Typed(&shape, &value)).map_err(|e| format!("adapter self-test: recording failed: {}", e.0))?;
+        let back = crate::record::call_to_value(&call, &shape).map_err(|e| format!("adapter self-test: {} for {:?}", e, shape))?;
+        if back != value {
+            return Err(format!("adapter self-test: {:?} was handed to serde as {:?}", value, back));
+        }
+        let e = crate::refcodec::ref_encode(&shape, &value).map_err(|_| "adapter self-test: reference encoder refused".to_string())?;
+        match crate::refcodec::ref_decode(&shape, &e.bytes) {
+            Ok(d) if d.value == value && d.consumed == e.bytes.len() => {}
+            Err(crate::refcodec::DecErr::ZeroWidthSkip) => {}
+            other => return Err(format!("reference codec self-test: {:?} -> {:?}", value, other.map(|d| d.value))),
+        }
+    }
     Ok(())
 }
 
